@@ -6,6 +6,8 @@
 (*   AddCust(x)  = AddCustomizePubSession       DelCust(x) = DelCustomizePubSession              *)
 (*   StartPs(x)  = CtrlStartRtpPub              (a GB28181 input ends through Kick)               *)
 (*   NewSub(x)   = OnNewRtmpSubSession / OnNewHttpflvSubSession   DelSub(x) = OnDel...SubSession  *)
+(*   HlsOpen(x)  = first playlist request of an HLS client (OnNewHlsSubSession)   HlsPoll(x) = a  *)
+(*                 request with its session_id   HlsExpire(x) = time-out + sweep (OnDelHlsSubSession)*)
 (*   Kick(x)     = CtrlKickSession              Tick = one iteration of the 1 s loop of RunLoop   *)
 (*   Probe(x)    = one media message offered by input x (accepted, or a customize input that has  *)
 (*                 already been deleted)                                                          *)
@@ -30,14 +32,32 @@ CONSTANTS RtmpPubs, RtspPubs, CustPubs, PsPubs,     \* input sessions (ids)
           DescribeOn,                               \* RTSP players asking for the description are part of the model
           MaxSweep                                  \* idle sweeps (ticks whose count is a multiple of 120); 0 = not modelled
 
+\* HLS subscribers (hls.sub_session_hash_key set): sessions without a connection - the first playlist request of a
+\* client creates one (the 302 answer carries its session_id), every request with that session_id keeps it alive, and
+\* the once-per-second sweep of hls.ServerHandler ends it when no request has arrived for sub_session_timeout_ms (or
+\* when it has been kicked).  A definition, not a CONSTANT, so that configurations written before it existed still
+\* load: a configuration with HLS subscribers overrides it (HlsSubs <- Hls1 / Hls2).
+HlsSubs == {}
+Hls1 == {"h1"}
+Hls2 == {"h1", "h2"}
+\* Messages the accepted relay pull delivers by itself when it attaches.  The pull machine is the same for an RTMP and an
+\* RTSP origin; the one difference an observer sees is that an RTSP origin *describes* the stream (SDP with H.264 parameter
+\* sets and the AAC configuration), and lal turns that description into metadata + video header + audio header messages
+\* as soon as the session attaches - media of the accepted input, seen by the stream hook.  (How lal does it: the
+\* properties only demand that whatever is forwarded comes from the accepted input.)  0 for an RTMP origin; the
+\* configurations with an RTSP origin override it (PullHdrMsgs <- PullHdrRtsp).
+PullHdrMsgs == 0
+PullHdrRtsp == 3
+
 NetPubs == RtmpPubs \cup RtspPubs \cup WirePubs
 \* sessions whose server goroutine reports their departure as soon as they are disposed (the driver owns
 \* that goroutine for RtmpPubs / Subs, which are attached and deleted by direct calls)
 AutoPubs == RtspPubs \cup WirePubs
 Pubs == NetPubs \cup CustPubs \cup PsPubs
-Subs == RtmpSubs \cup FlvSubs \cup TsSubs
+Subs == RtmpSubs \cup FlvSubs \cup TsSubs    \* subscribers on a connection (attached / deleted by NewSub / DelSub)
+AllSubs == Subs \cup HlsSubs
 FwdSubs == RtmpSubs \cup FlvSubs      \* subscribers a forwarded probe message reaches at once
-Sessions == Pubs \cup Subs
+Sessions == Pubs \cup AllSubs
 
 VARIABLES grp,      \* the group exists
           inp,      \* accepted input: "" | session id | "pull"
@@ -70,8 +90,8 @@ Init == /\ grp = FALSE /\ inp = "" /\ owner = ""
         /\ idl = [x \in Sessions |-> "new"] /\ nsweeps = 0
         /\ act = [name |-> "init"]
 
-HasSub == \E x \in Subs : ss[x] = "in"
-\* Group.hasSubSession(): subscribers of any protocol, or an installed stream hook
+HasSub == \E x \in AllSubs : ss[x] = "in"
+\* Group.hasSubSession(): subscribers of any protocol (HLS sessions too), or an installed stream hook
 HasOutM == HasSub \/ (HookOn /\ owner # "")
 HasIn == inp # ""
 
@@ -189,6 +209,48 @@ DelSub(x) ==
   /\ act' = [name |-> "DelSub", x |-> x, obs |-> Obs("ok", <<N("sub_stop", x)>>, <<>>)]
   /\ UNCHANGED <<grp, inp, owner, closed, pull, clock, nticks>>
 
+\* ---- HLS subscribers (pkg/hls/server_handler.go, ServerManager.OnNewHlsSubSession / OnDelHlsSubSession)
+\* the first playlist request of a client: a session is created and attached like any other subscriber (group created,
+\* sub_start, listed by the stat API, Group.addSub -> pullIfNeeded); the client is redirected to the same playlist with
+\* the session_id of its session
+HlsOpen(x) ==
+  /\ x \in HlsSubs /\ ss[x] = "idle"
+  /\ grp' = TRUE
+  /\ ss' = [ss EXCEPT ![x] = "in"]
+  /\ nh' = [nh EXCEPT ![x] = "started"]
+  /\ pull' = IF PullEnabled THEN PullIfNeeded(Created(pull), HasIn, TRUE, clock) ELSE pull
+  /\ act' = [name |-> "HlsOpen", x |-> x, obs |-> ObsP("ok", <<N("sub_start", x)>>, <<>>, pull')]
+  /\ UNCHANGED <<inp, owner, closed, clock, nticks>>
+
+\* a request carrying the session_id (for the playlist or for a segment): served while the session exists (that is what
+\* keeps it alive); the id of a session that has ended is refused, and nothing else happens - in particular no session
+\* comes into being
+HlsPoll(x) ==
+  /\ x \in HlsSubs /\ ss[x] \in {"in", "gone"}
+  /\ \E how \in {"m3u8", "ts"} :
+       act' = [name |-> "HlsPoll", x |-> x, how |-> how, obs |-> Obs(IF ss[x] = "in" THEN "ok" ELSE "nosession", <<>>, <<>>)]
+  /\ UNCHANGED <<grp, inp, owner, ss, closed, nh, pull, clock, nticks>>
+
+\* the client of x stops asking: sub_session_timeout_ms passes without a request with its session_id and the next sweep
+\* ends the session (the timer is abstract: while a session is attached and this action has not been taken its client
+\* asks often enough - the driver keeps such sessions alive by requests in the background)
+HlsExpire(x) ==
+  /\ x \in HlsSubs /\ ss[x] = "in" /\ grp
+  /\ ss' = [ss EXCEPT ![x] = "gone"]
+  /\ nh' = [nh EXCEPT ![x] = "stopped"]
+  /\ act' = [name |-> "HlsExpire", x |-> x, obs |-> Obs("ok", <<N("sub_stop", x)>>, <<>>)]
+  /\ UNCHANGED <<grp, inp, owner, closed, pull, clock, nticks>>
+
+\* time passes - more than sub_session_timeout_ms and a sweep - while every attached client keeps asking: nothing happens
+\* (requests with the session_id are what keeps a session alive).  Only in configurations that ask for it
+\* (HlsLingerOn <- Yes): the step costs real time.
+HlsLingerOn == FALSE
+Yes == TRUE
+HlsLinger ==
+  /\ HlsLingerOn /\ \E x \in HlsSubs : ss[x] = "in"
+  /\ act' = [name |-> "HlsLinger", obs |-> Obs("ok", <<>>, <<>>)]
+  /\ UNCHANGED <<grp, inp, owner, ss, closed, nh, pull, clock, nticks>>
+
 \* kick_session: only attached network sessions (and GB28181 inputs) can be kicked; a customize
 \* input has no kickable id.  A kicked GB28181 input is torn down by its own goroutine at once
 \* (the driver waits for it); the others are deleted by their server goroutine (DelPub / DelSub).
@@ -201,16 +263,20 @@ Kick(x) ==
        ELSE IF ~Kickable(x)
          THEN /\ act' = [name |-> "Kick", x |-> x, obs |-> Obs("nosession", <<>>, <<>>)]
               /\ UNCHANGED <<ss, closed, inp, owner>>
-         ELSE IF x \in PsPubs \cup AutoPubs     \* served by their own goroutine: the departure follows at once
+         ELSE IF x \in PsPubs \cup AutoPubs \cup HlsSubs     \* served by their own goroutine: the departure follows at once
+           \* (a kicked HLS session is only flagged; the sweep of hls.ServerHandler, which runs once a second on its
+           \*  own, reports its departure - the action is the kick together with that sweep)
            THEN /\ ss' = [ss EXCEPT ![x] = "gone"]
                 /\ IF inp = x THEN inp' = "" /\ owner' = "" ELSE UNCHANGED <<inp, owner>>
                 /\ act' = [name |-> "Kick", x |-> x,
-                           obs |-> Obs("ok", IF x \in AutoPubs THEN <<N("pub_stop", x)>> ELSE <<>>, IF inp = x THEN DelInEv ELSE <<>>)]
+                           obs |-> Obs("ok", IF x \in AutoPubs THEN <<N("pub_stop", x)>>
+                                             ELSE IF x \in HlsSubs THEN <<N("sub_stop", x)>> ELSE <<>>,
+                                       IF inp = x THEN DelInEv ELSE <<>>)]
                 /\ UNCHANGED closed
            ELSE /\ closed' = [closed EXCEPT ![x] = TRUE]
                 /\ act' = [name |-> "Kick", x |-> x, obs |-> Obs("ok", <<>>, <<>>)]
                 /\ UNCHANGED <<ss, inp, owner>>
-  /\ nh' = IF grp /\ Kickable(x) /\ x \in AutoPubs THEN [nh EXCEPT ![x] = "stopped"] ELSE nh
+  /\ nh' = IF grp /\ Kickable(x) /\ x \in AutoPubs \cup HlsSubs THEN [nh EXCEPT ![x] = "stopped"] ELSE nh
   /\ UNCHANGED <<grp, pull, clock, nticks>>
 
 \* one media message offered by x: forwarded (the stream hook sees it) iff x is the accepted input
@@ -302,7 +368,9 @@ PullOk ==
   /\ IF ~HasIn /\ pull.api       \* (a module that was disabled while the attempt was in flight refuses it)
        THEN /\ inp' = "pull" /\ owner' = "pull"
             /\ pull' = [pull EXCEPT !.att = TRUE]
-            /\ act' = [name |-> "PullOk", obs |-> Obs("ok", <<N("pull_start", "pull")>>, AddIn("pull"))]
+            /\ act' = [name |-> "PullOk",
+                       obs |-> Obs("ok", <<N("pull_start", "pull")>>,
+                                   AddIn("pull") \o (IF HookOn THEN [i \in 1..PullHdrMsgs |-> N("hook_msg", "pull")] ELSE <<>>))]
        ELSE \* overtaken by a publisher: refused, disposed; the goroutine's DelRtmpPullSession follows at once
             /\ pull' = [pull EXCEPT !.flying = FALSE]
             /\ act' = [name |-> "PullOk", obs |-> Obs("dup", <<N("pull_stop", "pull")>>, <<>>)]
@@ -338,7 +406,7 @@ Shutdown ==
   /\ ShutdownEnabled /\ ~down
   /\ down' = TRUE
   /\ inp' = "" /\ owner' = ""
-  /\ closed' = [x \in Sessions |-> closed[x] \/ (ss[x] = "in" /\ x \notin CustPubs)]
+  /\ closed' = [x \in Sessions |-> closed[x] \/ (ss[x] = "in" /\ x \notin CustPubs \cup HlsSubs)]
   /\ pull' = [pull EXCEPT !.att = FALSE, !.flying = FALSE]
   /\ act' = [name |-> "Shutdown", obs |-> Obs("ok", IF pull.att THEN EndNotif ELSE <<>>, IF grp THEN DelInEv ELSE <<>>)]
   /\ push' = StopPush(push) /\ patt' = patt
@@ -380,6 +448,8 @@ Step == \/ \E x \in NetPubs : NewPub(x) \/ DelPub(x)
         \/ \E x \in CustPubs : AddCust(x) \/ DelCust(x)
         \/ \E x \in PsPubs : StartPs(x)
         \/ \E x \in Subs : NewSub(x) \/ DelSub(x)
+        \/ \E x \in HlsSubs : HlsOpen(x) \/ HlsPoll(x) \/ HlsExpire(x)
+        \/ HlsLinger
         \/ \E x \in Sessions : Kick(x)
         \/ \E x \in Pubs : Probe(x)
         \/ \E x \in RtspPubs : KeepAlive(x) \/ Misuse(x)
@@ -435,7 +505,7 @@ IdlFx == idl' = IF act'.name = "Probe"
                   THEN [x \in Sessions |-> IF idl[x] = "still" /\ Touched(x, act'.x) THEN "moved" ELSE idl[x]]
                   ELSE idl
 Sweep ==
-  /\ ~PullEnabled /\ PushTargets = {} /\ TsSubs = {} /\ nsweeps < MaxSweep
+  /\ ~PullEnabled /\ PushTargets = {} /\ TsSubs = {} /\ HlsSubs = {} /\ nsweeps < MaxSweep
   /\ nsweeps' = nsweeps + 1
   /\ IF ~grp THEN /\ act' = [name |-> "Sweep", obs |-> Obs("ok", <<>>, <<>>)]
                   /\ UNCHANGED <<grp, inp, owner, ss, closed, nh, idl>>
@@ -478,7 +548,7 @@ AtMostOneInput ==
 PipelineOwned == owner = inp
 \* notifications: started iff the network session is / was attached, stopped only after started
 NotifyPaired ==
-  \A x \in NetPubs \cup Subs :
+  \A x \in NetPubs \cup AllSubs :
     /\ (ss[x] = "in") => nh[x] = "started"
     /\ (ss[x] = "gone") => nh[x] = "stopped"
     /\ (ss[x] \in {"idle", "refused"}) => nh[x] = "none"
